@@ -356,6 +356,7 @@ func init() {
 			return kvErr(err)
 		}
 		keep(e.Value())
+		keepKey(e.Key())
 		return fmtEntry(e)
 	})
 	register("holdpage", func(a []string) string {
@@ -368,6 +369,7 @@ func init() {
 		next, err := k.Scan(cursor, atoi(a[2]), func(e storage.Entry) bool {
 			keys = append(keys, hx([]byte(e.Key())))
 			keep(e.Value())
+			keepKey(e.Key())
 			return true
 		})
 		if err != nil {
@@ -380,6 +382,11 @@ func init() {
 		for i, h := range held {
 			if !bytesEqual(h.live, h.saved) {
 				return fmt.Sprintf("changed %d was=%s now=%s", i, hx(h.saved), hx(h.live))
+			}
+		}
+		for i, h := range heldKeys {
+			if h.live != h.saved {
+				return fmt.Sprintf("changed key %d was=%s now=%s", i, hx([]byte(h.saved)), hx([]byte(h.live)))
 			}
 		}
 		return "ok " + strconv.Itoa(len(held))
@@ -422,6 +429,16 @@ type heldValue struct {
 var held []heldValue
 
 func keep(v []byte) { held = append(held, heldValue{v, append([]byte{}, v...)}) }
+
+// a key handed out by the store (a Go string: immutable for the caller, unless it shares its bytes with the table)
+type heldKey struct {
+	live  string // the very string the store handed out
+	saved string // a copy of its bytes at that moment
+}
+
+var heldKeys []heldKey
+
+func keepKey(k string) { heldKeys = append(heldKeys, heldKey{k, string(append([]byte{}, k...))}) }
 
 func bytesEqual(a, b []byte) bool {
 	if len(a) != len(b) {
